@@ -54,6 +54,7 @@ type env struct {
 	Addr    string
 	cancel  context.CancelFunc
 	ln      net.Listener
+	served  chan struct{}
 	clients []*rawcli.Client
 }
 
@@ -145,8 +146,9 @@ func startEnv(o envOpts) (*env, error) {
 		cl.Close()
 		return nil, err
 	}
-	go func() { _ = p.Serve(ln) }()
-	return &env{Cluster: cl, Proxy: p, Addr: ln.Addr().String(), cancel: cancel, ln: ln}, nil
+	served := make(chan struct{})
+	go func() { _ = p.Serve(ln); close(served) }()
+	return &env{Cluster: cl, Proxy: p, Addr: ln.Addr().String(), cancel: cancel, ln: ln, served: served}, nil
 }
 
 func contains(xs []int, x int) bool {
@@ -161,6 +163,14 @@ func contains(xs []int, x int) bool {
 func (e *env) Close() {
 	for _, c := range e.clients {
 		c.Close()
+	}
+	// Stop accepting first and let Serve finish the connection it may be setting up: Proxy.Close()
+	// racing with a just-accepted connection dereferences a nil conn (shutdown is outside the listed
+	// properties; the harness simply avoids the race).
+	_ = e.ln.Close()
+	select {
+	case <-e.served:
+	case <-time.After(2 * time.Second):
 	}
 	_ = e.Proxy.Close()
 	e.cancel()
